@@ -101,7 +101,7 @@ def run(ctx):
     ctx.extra["id_base"] = id_base(ctx)
     ctx.rule = ("cases = static families of AnnotateChange.tla (Singles: one modified/deleted element of each kind, versions 1..4, "
                 "against every stored order of every subset of 1..HMax and against no history, both ignore-missing settings, option sets "
-                "and id tables rotated; Pairs: two elements in every pair of cells x every shape; Houses; Failing; Optioned: all 36 "
+                "and id tables rotated; Pairs: two elements in every pair of cells x every shape; Houses; Failing and Faulty (fault-injecting datasource: non-not-found and own not-found errors for chosen (kind, id)); Optioned: all 36 "
                 "settings of the other options x missing/present predecessor; IdTables: concrete ids 0 / 2^40-1 / negative as first and "
                 "later element of every pair of update cells) enumerated completely by TLC (%s) + seeded random draws of the full product "
                 "space; distinct = distinct abstract cases; non-trivial = at least one modified or deleted element"
@@ -112,7 +112,8 @@ def run(ctx):
         "'the documented typed error'; with several missing elements any of them may be named",
         "the order among the elements of one (action, kind) cell is not fixed by the property; a different order there is "
         "reported as DIVERGENCE, not as a violation",
-        "datasource errors other than not-found are outside the property (modelled, compared as divergence only)",
+        "when a lookup fails with an error the datasource does not classify as not-found, any error returned by Change is "
+        "accepted (which one: Model only, divergence); a diff returned nevertheless must be the exact diff w.r.t. the existing histories",
         "only IgnoreMissingChildren(true) may change the outcome: Judge and Model never read the other option settings "
         "(IgnoreInconsistency, Threshold, ChildFilter, explicit IgnoreMissingChildren(false)), all of which are enumerated",
         "ids are rendered through the id table named by the case: base = id_base + i with id_base chosen by the seed (0, 4e9, "
